@@ -6,12 +6,15 @@ mod update;
 mod loader;
 mod plan;
 mod rsp;
+#[allow(dead_code)]
+#[path = "../../ksim-core/src/dlsim.rs"]
+mod dlsim;
 use kolibrie_verif_rt::harness::{self, Tier};
 
 fn usage() -> ! { eprintln!("usage: ksim-db <ID> <quick|thorough> | replay <file> | one <ID> <run_index> [tier]"); std::process::exit(2) }
 fn tier(s: &str) -> Tier { match s { "quick" => Tier::Quick, "thorough" => Tier::Thorough, _ => usage() } }
 macro_rules! dispatch {
-    ($id:expr, $f:ident $(, $a:expr)*) => { match $id { "C04" => harness::$f(store::C04 $(, $a)*), "C15" => harness::$f(dict::C15 $(, $a)*), "C03" => harness::$f(update::C03 $(, $a)*), "C17" => harness::$f(update::C17 $(, $a)*), "C13" => harness::$f(loader::C13 $(, $a)*), "C02" => harness::$f(plan::C02 $(, $a)*), "C09" => harness::$f(rsp::C09 $(, $a)*), "C10" => harness::$f(rsp::C10 $(, $a)*), "C11" => harness::$f(rsp::C11 $(, $a)*), _ => usage() } };
+    ($id:expr, $f:ident $(, $a:expr)*) => { match $id { "C04" => harness::$f(store::C04 $(, $a)*), "C15" => harness::$f(dict::C15 $(, $a)*), "C03" => harness::$f(update::C03 $(, $a)*), "C17" => harness::$f(update::C17 $(, $a)*), "C13" => harness::$f(loader::C13 $(, $a)*), "C02" => harness::$f(plan::C02 $(, $a)*), "C09" => harness::$f(rsp::C09 $(, $a)*), "C10" => harness::$f(rsp::C10 $(, $a)*), "C11" => harness::$f(rsp::C11 $(, $a)*), "C12" => harness::$f(rsp::C12 $(, $a)*), _ => usage() } };
 }
 fn main() {
     let args: Vec<String> = std::env::args().collect();
